@@ -125,6 +125,8 @@ CLASSES = {
         "module": "hypergraph.runners.async_.executors.function_node", "file": "runners/async_/executors/function_node.py", "attrs": {},
         "methods": {"_execute": {"pure": False, "returns": DICT(STR, ANY), "raises": ["Exception"], "coroutine": True}},
     },
+    "AsyncGraphNodeExecutor": {"module": "hypergraph.runners.async_.executors.graph_node", "file": "runners/async_/executors/graph_node.py",
+                               "attrs": {"runner": ANY}, "methods": {}},
     "SyncFunctionNodeExecutor": {"module": "hypergraph.runners.sync.executors.function_node", "file": "runners/sync/executors/function_node.py", "attrs": {}, "methods": {}},
     "DiskCache": {
         "module": "hypergraph.cache", "file": "cache.py",
@@ -195,7 +197,11 @@ ANY_METHODS.update({
     "error": {"pure": False, "returns": NONE_T, "raises": []},
     "exception": {"pure": False, "returns": NONE_T, "raises": []},
     "with_traceback": {"returns": ANY},
+    # a runner reached through an executor's back reference (`self.runner.run / .map`): any outcome of a nested run
+    "run": {"pure": False, "returns": OBJ("RunResult"), "raises": ["BaseException"]},
+    "map": {"pure": False, "returns": SEQ(OBJ("RunResult")), "raises": ["BaseException"]},
 })
+ANY_ATTRS.update({"runner": ANY, "map_config": ANY})
 OPAQUE = {
     # graph reachability over networkx (assumed contract A4): total on graphs built by the Graph constructor
     "_active_from_entrypoints": {"raises": [], "returns": SET(STR)},
